@@ -86,6 +86,32 @@ func (x *Exec) evalBuiltin(s *State, name string, e *ast.CallExpr) Val {
 	case "append":
 		return x.evalAppend(s, e)
 	case "copy":
+		if se, ok := unparen(e.Args[0]).(*ast.SliceExpr); ok && se.Low == nil && se.High == nil && !se.Slice3 {
+			// copy(v.f[:], src) into an array that is part of a variable's value (not an array variable
+			// living in a backing store): a value-level update of that array
+			if au, ok := under(x.typeOf(se.X)).(*types.Array); ok {
+				_, isIdent := unparen(se.X).(*ast.Ident)
+				ls := leavesOf(au.Elem())
+				if !isIdent && len(ls) == 1 {
+					cur := x.eval(s, se.X)
+					src := x.eval(s, e.Args[1])
+					if src.K == KStr {
+						src = x.stringToBytes(s, src, types.NewSlice(au.Elem()))
+					}
+					if cur.K == KArr && cur.Ref == "" && src.K == KSlice {
+						n := s.define("ncopy", sInt, mkIte(mkCmp("<=", itoa(int(au.Len())), src.Len), itoa(int(au.Len())), src.Len))
+						name := "M$" + typeKey(au.Elem()) + "$" + ls[0].path
+						srcArr := mkSel(s.heapGet(name, arrSort(arrSort(ls[0].sort))), src.Ref)
+						na := x.eng.fresh("cp.val", arrSort(ls[0].sort))
+						k := "k!c"
+						s.assume(sf("(forall ((%s Int)) (! (= (select %s %s) (ite (and (<= 0 %s) (< %s %s)) (select %s (+ %s %s)) (select %s %s))) :pattern ((select %s %s))))",
+							k, na, k, k, k, n, srcArr, src.Off, k, cur.S, k, na, k))
+						x.assign(s, se.X, Val{K: KArr, T: cur.T, S: na})
+						return Val{K: KInt, T: types.Typ[types.Int], S: n, Lo: big0, Hi: maxLen}
+					}
+				}
+			}
+		}
 		dst := x.eval(s, e.Args[0])
 		src := x.eval(s, e.Args[1])
 		return x.doCopy(s, dst, src, e.Pos())
